@@ -155,7 +155,10 @@ func (c *copier) prepareTargetDir(srcFollowed, src, destPath string, copyDirCont
 		}
 	}
 
-	if (!copyDirContents && fiSrc.IsDir() && fiDest != nil) || (!fiSrc.IsDir() && fiDest != nil && fiDest.IsDir()) {
+	// a source lands inside the destination only if that is a directory; any other
+	// entry there (a file, or a symlink that an earlier wildcard match created) is an
+	// obstacle to conflict with or to replace, never something to descend into
+	if fiDest != nil && fiDest.IsDir() && (!copyDirContents || !fiSrc.IsDir()) {
 		// name the source as rootPath resolved it: a path that cleans to the
 		// source root ("..", "d/..") has no name of its own and must not make
 		// the target the parent of destPath
